@@ -213,3 +213,42 @@ Theorem C13_other_keys_untouched :
   snd (fst (spec_step DefaultDataTTL_ms s now o)) k = s k.
 Proof. exact (spec_other_keys_untouched DefaultDataTTL_ms). Qed.
 Print Assumptions C13_other_keys_untouched.
+
+(* Snapshots of composite values.  What Get / GetList / GetAllHash return is the whole value the key holds at the instant of
+   the read's critical section; with C13_linearizable_all_schedules: a snapshot equals the store value at one instant between
+   call and return. *)
+Theorem C13_snapshot_is_store_value :
+  forall m now k,
+  fst (fst (mem_step DefaultDataTTL_ms repaired m now (KGet k)))
+    = match live now (m k) with Some it => OVal (val it) | None => ONotFound end
+  /\ fst (fst (mem_step DefaultDataTTL_ms repaired m now (KGetList k)))
+    = match live now (m k) with
+      | Some it => match val it with VList l => OVal (VList l) | _ => OInvalidType end
+      | None => ONotFound
+      end
+  /\ fst (read_phase repaired m now (KGetAllHash k))
+    = match live now (m k) with
+      | Some it => match val it with VHash h => OVal (VHash h) | _ => OInvalidType end
+      | None => ONotFound
+      end.
+Proof. exact (snapshot_is_store_value DefaultDataTTL_ms). Qed.
+Print Assumptions C13_snapshot_is_store_value.
+
+(* Copying after the lock is released, against writers that mutate the hash in place: the log has no linearization and the
+   snapshot returned is a value the key never held. *)
+Theorem C13_copy_after_unlock_refuted : ~ legal DAY 1000 torn_log.
+Proof. exact copy_after_unlock_refuted. Qed.
+Print Assumptions C13_copy_after_unlock_refuted.
+
+Theorem C13_torn_snapshot_never_stored :
+  In (KGet kA, OVal (VHash [(fa, SInt 0); (fb, SInt 1)])) torn_log
+  /\ ~ In (VHash [(fa, SInt 0); (fb, SInt 1)])
+          [VHash [(fa, SInt 0)]; VHash [(fa, SInt 0); (fb, SInt 0)]; VHash [(fa, SInt 1); (fb, SInt 0)]; VHash [(fa, SInt 1); (fb, SInt 1)]].
+Proof. exact torn_snapshot_never_stored. Qed.
+Print Assumptions C13_torn_snapshot_never_stored.
+
+Theorem C13_copy_under_lock_same_schedule :
+  map snd (sh_log (fst (run shared local (tstep DAY repaired) (init 1000 torn_progs) torn_sched)))
+  = [OOk; OOk; OVal (VHash [(fa, SInt 0); (fb, SInt 0)]); OOk; OOk].
+Proof. exact copy_under_lock_same_schedule. Qed.
+Print Assumptions C13_copy_under_lock_same_schedule.
